@@ -10,6 +10,7 @@ from indexing import (cq_key, cq_rhs, in_region, normalise, observe_raw, py_key,
 from props.c06 import subdim, _with_sub, _short
 
 ID = "C05"
+THOROUGH_ROUNDS = 2      # rounds of generate() in the thorough tier (new random draws each round)
 COQ_MODULE = "Corr.Indexing"
 RULE = ("targets over ordered dimension subsets of a 3-letter universe, lengths (2,2,3) and (2,2,2); whole-array and keyed "
         "assignment (ellipsis, single items, subset Dimensions, lists, tuples) of: FlodymArray sources over every ordered "
